@@ -713,6 +713,12 @@ def plan(prop, tier, seed, known):
         for i in range(n):
             jobs.append(seq_job("seq%d" % i, seed * 100 + i, "mix,data,names,dirs,many", 5 if q else 10, 250 if q else 400, av))
         jobs.append(probe_job(prop, av))
+        # through the XDR/RPC transport: nfstypes encoding + rfc1057 framing and dispatch in front of the same server
+        for i in range(2 if q else 16):
+            jobs.append(seq_job("rpc%d" % i, seed * 100 + 30 + i, "mix,data,names,dirs,many", 4 if q else 10, 250 if q else 400, av, extra=["-transport"]))
+        j = probe_job(prop, av)
+        j["name"], j["driver"] = "probes-rpc-" + prop, j["driver"] + ["-transport"]
+        jobs.append(j)
         # model-based tests: one real run per transition of the bounded NfsMC graph (a slice in quick) and long simulated walks
         parts = 16
         for k in ([seed % parts] if q else range(parts)):
@@ -828,6 +834,9 @@ def plan(prop, tier, seed, known):
         for i in range(2 if q else 16):
             jobs.append({"name": "argsweep%d" % i, "module": "NfsTrace.tla", "cfg": "NfsTrace.cfg",
                          "driver": ["argsweep", "-seed", str(seed * 100 + i), "-segs", "1", "-steps", "600" if q else "3000", "-avoid", av]})
+        for i in range(1 if q else 8):   # the same through the repository's XDR/RPC path (real decoding, dispatch tables, MOUNT program)
+            jobs.append({"name": "argsweeprpc%d" % i, "module": "NfsTrace.tla", "cfg": "NfsTrace.cfg",
+                         "driver": ["argsweep", "-seed", str(seed * 100 + 10 + i), "-segs", "1", "-steps", "600" if q else "3000", "-avoid", av, "-transport"]})
         for i in range(2 if q else 16):
             jobs.append(seq_job("mixstale%d" % i, seed * 100 + 20 + i, "stale,mix,limits", 3 if q else 8, 200 if q else 400, av, disk=30000))
         jobs.append(probe_job(prop, av))
